@@ -31,6 +31,17 @@ Sub-checks
             output of a fresh cleaner for ITS content and configuration (obfuscation off: equal; obfuscation
             on - serial histories only, substitution tables are shared by design - the same input lines
             survive).
+  big       (enumerated)  (a) contents of 4095 ... 32769 lines (quick) that need no cleaning, stored through
+            ContentProvider.write / clean_file: stored lines == input lines.  (b) histories at sizes around the
+            round numbers at which an implementation may switch strategy - powers of two AND decimal round numbers
+            (10**4, 5*10**4, 10**5; T-1, T, T+1 lines): the SAME content object (the caller's list / one provider)
+            is cleaned 2-3 times, each time by a fresh cleaner of the same configuration, a plain pattern dropping
+            every third line / only the first / only the last / every non-blank line.  Oracle per cleaning: every
+            output line is the input line whose tag it carries, tags strictly increasing (one input line per output
+            line, original order); nothing but blank lines left -> [] / no file; every later output equals the
+            first; at the end the caller's list still is what was handed in.
+            order repeats the last two clauses at small sizes (list: the same list object handed to two fresh
+            cleaners; write: one provider stored twice).
 Blank = the empty string (whitespace-only lines are not generated: whether they are "blank" is not
 stated)."""
 import os
@@ -64,6 +75,9 @@ RULE = ("cases built so that obfuscators compete for the same text: keywords tha
         "object, each in a real thread, interleaved exactly as a generated schedule says (yield point = a line "
         "is read / a parser is applied); non-trivial (overlap): the cleanings differ in what is handed over per "
         "call, some line is dropped and - obfuscation off - they really overlapped. "
+        "big: enumerated sizes around powers of two and decimal round numbers (T-1, T, T+1 lines), the same "
+        "content object (list / provider) cleaned 2-3 times by fresh cleaners with a pattern that drops every third "
+        "/ the first / the last / every non-blank line; order: the same list object / provider cleaned twice. "
         "hashseed: every case is run under |K| hash seeds in child interpreters. "
         "Non-trivial (hashseed): applying the enabled obfuscators one at a time in documented order and in "
         "reverse order (public API, no_obfuscate) gives different results, i.e. application order matters for "
@@ -86,6 +100,13 @@ ASSUMPTIONS = [
     "substitution table (keyword numbers are fixed by the configuration), so the outputs are compared as they "
     "are; with obfuscation on the tables are shared by design and callers never overlap: serial histories only, "
     "and only which input lines survive is compared (redaction and filtering see the original text)",
+    "big / order: a caller may clean the same content object again (DatasourceProvider keeps the list it was given "
+    "and write() may be called again - save_as copy, second registry point -, provider.content is read after "
+    "write()); 'same content' for the second cleaning means the object the caller still holds, so cleaning must "
+    "leave it as it was handed in (the unchanged clean_content builds a new list and never writes to its argument)",
+    "big: the generated lines hold nothing any obfuscator rewrites, so an output line has to be equal to the input "
+    "line whose tag it carries; which lines a plain pattern drops is C08's business - only 'every non-blank line "
+    "carries the pattern -> the spec is dropped' is used, as in order",
     "overlap: a list subclass as content (the cleaner tests isinstance(lines, list)) whose item reads block until "
     "the scheduler's baton arrives; instance-level parse_line wrappers on the harness's own cleaner object",
 ]
@@ -317,15 +338,38 @@ def check_order(case):
         # clean_file opens the file in text mode with the locale's encoding: what it does with UTF-8 bytes
         # under another locale is outside the statement
         return {"nontrivial": False, "labels": ["skipped:non-ascii-file-under-a-non-utf8-locale"]}
+    same = None
     if entry in ("list", "str"):
         out = c08.run_entry(case, c08.build_cleaner(case), lines)
         again = c08.run_entry(case, c08.build_cleaner(case), lines)
     else:
-        out, leftover = _run_on_disk(case, lines)
+        same = {} if entry == "write" else None
+        out, leftover = _run_on_disk(case, lines, again=same)
         again, _ = _run_on_disk(case, lines)
     if out != again:
         raise Violation("two fresh cleaners produce different output for the same content and configuration",
                         first=out, second=again, **details)
+    # the same content OBJECT once more: callers keep the list they handed over (a provider caches its content and
+    # is stored / read again; a datasource hands the same list to several specs), so cleaning it again - fresh
+    # cleaner, same configuration - has to give the same output, which it cannot if cleaning worked on the
+    # caller's list instead of its own result
+    if entry == "list":
+        kept = list(lines)
+        kw = dict(no_obfuscate=list(case.get("no_obfuscate") or []), no_redact=bool(case.get("no_redact")),
+                  width=bool(case.get("width")))
+        allow = case.get("allowlist")
+        reruns = [c08.build_cleaner(case).clean_content(kept, allowlist=dict(allow) if allow is not None else None, **kw)
+                  for _ in range(2)]
+        same = {"out": reruns[1], "content": kept, "first": reruns[0]}
+    if same:
+        labels.add("same-content-object-cleaned-twice")
+        if same.get("first", out) != out or same["out"] != out:
+            raise Violation("the same content object (the caller's list of lines / one provider) cleaned a second time "
+                            "by a fresh cleaner of the same configuration gives another output",
+                            first=same.get("first", out), second=same["out"], **details)
+        if same["content"] != lines:
+            raise Violation("cleaning is not a function of the content handed in: the caller's list of lines was "
+                            "altered by cleaning it", content_after=same["content"], **details)
     if entry in ("list", "str") and len(lines) >= 2:
         # in between, another cleaner of the same process met the same names in another order: a fresh cleaner
         # must not inherit anything from it
@@ -466,32 +510,18 @@ def _lookalike_labels(case, lines):
     return out
 
 
-def _run_on_disk(case, lines):
-    """file / write entry -> (output lines, (exists, text, raised))"""
+def _run_on_disk(case, lines, again=None):
+    """file / write entry -> (output lines, (exists, text, raised)).  `again` (a dict, write entry only): the SAME
+    provider is stored a second time, by a fresh cleaner of the same configuration, at another destination (a spec
+    saved twice / read again after it was saved); again["out"] = the second output, again["content"] = the list
+    of lines handed to the provider as it is afterwards"""
     no_obf = list(case.get("no_obfuscate") or [])
     no_red = bool(case.get("no_redact"))
     allow = case.get("allowlist")
     cleaner = c08.build_cleaner(case)
     d = tempfile.mkdtemp(prefix="vp-c10-")
-    try:
-        raised = False
-        if case["entry"] == "file":
-            path = os.path.join(d, "spec.txt")
-            with open(path, "wb") as f:
-                f.write(("\n".join(lines) + ("\n" if case.get("final_newline", True) else "")).encode("utf-8"))
-            cleaner.clean_file(path, no_obfuscate=no_obf, no_redact=no_red,
-                               allowlist=dict(allow) if allow is not None else None)
-        else:
-            from insights.core.context import HostContext
-            from insights.core.exceptions import ContentException
-            from insights.core.spec_factory import DatasourceProvider
-            p = DatasourceProvider(list(lines), relative_path="etc/vp/spec.conf", root=d, ctx=HostContext(),
-                                   cleaner=cleaner, no_obfuscate=no_obf, no_redact=no_red)
-            path = os.path.join(d, "out", "etc/vp/spec.conf")
-            try:
-                p.write(path)
-            except ContentException:
-                raised = True
+
+    def _stored(path):
         exists = os.path.exists(path)
         text = ""
         if exists:
@@ -508,6 +538,37 @@ def _run_on_disk(case, lines):
             out = text.split("\n")
             if not text:
                 out = []
+        return out, exists, text
+    try:
+        raised = False
+        if case["entry"] == "file":
+            path = os.path.join(d, "spec.txt")
+            with open(path, "wb") as f:
+                f.write(("\n".join(lines) + ("\n" if case.get("final_newline", True) else "")).encode("utf-8"))
+            cleaner.clean_file(path, no_obfuscate=no_obf, no_redact=no_red,
+                               allowlist=dict(allow) if allow is not None else None)
+        else:
+            from insights.core.context import HostContext
+            from insights.core.exceptions import ContentException
+            from insights.core.spec_factory import DatasourceProvider
+            content = list(lines)
+            p = DatasourceProvider(content, relative_path="etc/vp/spec.conf", root=d, ctx=HostContext(),
+                                   cleaner=cleaner, no_obfuscate=no_obf, no_redact=no_red)
+            path = os.path.join(d, "out", "etc/vp/spec.conf")
+            try:
+                p.write(path)
+            except ContentException:
+                raised = True
+        out, exists, text = _stored(path)
+        if again is not None and case["entry"] != "file":
+            p.cleaner = c08.build_cleaner(case)
+            path2 = os.path.join(d, "out2", "etc/vp/spec.conf")
+            try:
+                p.write(path2)
+            except ContentException:
+                pass
+            again["out"] = _stored(path2)[0]
+            again["content"] = content
         return out, (exists, text, raised)
     finally:
         shutil.rmtree(d, ignore_errors=True)
@@ -987,47 +1048,179 @@ def _width_case(draw, tier):
             "lines": lines, "compete": ["width-mode"]}
 
 
+# Round numbers at which an implementation may switch to another strategy: buffer / chunk sizes are powers of two,
+# "this content is large" thresholds are written in decimal (10**k, 5 * 10**k).  A threshold T is probed with
+# T - 1, T and T + 1 lines (">= T" and "> T" both change sides inside the triple).
+BIG_BINARY = [2 ** 12, 2 ** 14, 2 ** 16]
+BIG_DECIMAL = [10 ** 4, 5 * 10 ** 4, 10 ** 5]
+BIG_DROP_WORD = "vpdropvp"
+BIG_DROPS = ["every3", "first", "last", "all"]
+
+
 def big_cases(tier):
-    """contents whose number of stored lines sits around powers of two (buffered / chunked writers)"""
+    """(a) contents whose number of stored lines sits around powers of two (buffered / chunked writers), nothing to
+    clean, one cleaning; (b) histories: the SAME content object (the caller's list / one provider) is cleaned
+    `times` times, each time by a fresh cleaner of the same configuration, with a plain pattern that drops some
+    lines ('every3': two of three lines kept; 'first' / 'last': exactly one line dropped at the top / bottom;
+    'all': nothing but blank lines left), the number of lines sitting around binary and decimal round numbers"""
     sizes = [4095, 4096, 4097, 8193, 16383, 16384, 16385, 32769] if tier == "quick" else \
         [1023, 1025, 4095, 4096, 4097, 8191, 8193, 16383, 16384, 16385, 32767, 32768, 32769, 65537, 131073]
     for n in sizes:
         for entry in ("write", "file"):
             yield {"n": n, "entry": entry}
+    if tier == "quick":
+        # cost: ~8 us per line and cleaning (the password obfuscator is always on) -> the list entry gets the whole
+        # triple, the provider and one of the other drop modes (rotating) the size just above the round number
+        for i, t in enumerate(sorted(BIG_BINARY[:2] + BIG_DECIMAL)):
+            for n in (t - 1, t, t + 1):
+                # obfuscation on costs another ~10 us per line: small contents only (nothing to obfuscate in them)
+                yield {"n": n, "entry": "list", "drop": "every3", "times": 2, "obf": n <= 2 ** 12 + 1}
+            yield {"n": t + 1, "entry": "write", "drop": "every3", "times": 2, "obf": False}
+            yield {"n": t + 1, "entry": "write" if i % 2 else "list", "drop": BIG_DROPS[1 + i % 3], "times": 2, "obf": False}
+        return
+    for t in sorted(BIG_BINARY + BIG_DECIMAL + [2 ** 10, 2 ** 13, 2 ** 15, 2 ** 17, 10 ** 3, 2 * 10 ** 4, 2 * 10 ** 5]):
+        for n in (t - 1, t, t + 1):
+            for entry in ("list", "write"):
+                yield {"n": n, "entry": entry, "drop": "every3", "times": 2, "obf": n <= 2 ** 14 + 1}
+                for drop in BIG_DROPS[1:]:
+                    yield {"n": n, "entry": entry, "drop": drop, "times": 3 if drop == "last" else 2, "obf": False}
+        yield {"n": t, "entry": "file", "drop": "every3", "times": 1, "obf": False}
+        yield {"n": t + 1, "entry": "file", "drop": "last", "times": 1, "obf": False}
+        yield {"n": t, "entry": "file", "drop": "all", "times": 1, "obf": False}
+
+
+def _big_lines(n, drop, blanks):
+    """n lines that need no obfuscation; the lines picked by `drop` carry BIG_DROP_WORD.  'all' + blanks: every
+    fourth line is blank (the empty string), so that nothing but blank lines is left after redaction"""
+    def dropped(i):
+        return {"every3": i % 3 == 1, "first": i == 0, "last": i == n - 1, "all": True, None: False}[drop]
+    return ["" if blanks and drop == "all" and i % 4 == 2 else
+            "#%d# filler text %d%s" % (i, i % 7, " " + BIG_DROP_WORD if dropped(i) else "") for i in range(n)]
+
+
+def _big_derivation(lines, out, what, **details):
+    """every line of `out` is a line of `lines` (they need no obfuscation), each input line used at most once,
+    original relative order.  Blank input lines exist in mode 'all' only, where nothing may be left at all (the
+    collapse clauses report that before this function is reached), so a blank output line is never legitimate"""
+    prev = -1
+    n = len(lines)
+    for k, o in enumerate(out):
+        parts = o.split("#")
+        if len(parts) != 3 or parts[0] != "" or not parts[1].isdigit() or int(parts[1]) >= n \
+                or lines[int(parts[1])] != o:
+            raise Violation("%s: output line %d of %d does not derive from exactly one input line (the lines need "
+                            "no obfuscation, so it has to be the input line whose tag it carries): %r"
+                            % (what, k, len(out), o[:120]), **details)
+        t = int(parts[1])
+        if t <= prev:
+            raise Violation("%s: output line %d (%r) derives from input line %d, the line before it from input line "
+                            "%d: an input line shows up twice or the original relative order is lost (%d input lines, "
+                            "%d output lines)" % (what, k, o[:80], t, prev, n, len(out)), **details)
+        prev = t
 
 
 def check_big(case):
     from insights.cleaner import Cleaner
     from insights.core.context import HostContext
+    from insights.core.exceptions import ContentException
     from insights.core.spec_factory import DatasourceProvider
     from types import SimpleNamespace
-    n = case["n"]
-    lines = ["#%d# filler text %d" % (i, i % 7) for i in range(n)]
-    cleaner = Cleaner(SimpleNamespace(obfuscate=True, obfuscate_hostname=True, obfuscate_ipv6=False, obfuscate_mac=True),
-                      {}, "web.corp.acme.org")
+    n, entry, drop = case["n"], case["entry"], case.get("drop")
+    times, obf = case.get("times", 1), case.get("obf", True)
+    lines = _big_lines(n, drop, blanks=entry != "file")
+    details = dict(n=n, entry=entry, drop=drop, times=times, obfuscate=obf)
+
+    def fresh():
+        return Cleaner(SimpleNamespace(obfuscate=obf, obfuscate_hostname=obf, obfuscate_ipv6=False, obfuscate_mac=obf),
+                       {"patterns": [BIG_DROP_WORD]} if drop else {}, "web.corp.acme.org")
+    outs = []
     d = tempfile.mkdtemp(prefix="vp-c10-")
     try:
-        if case["entry"] == "write":
-            p = DatasourceProvider(list(lines), relative_path="etc/vp/big.conf", root=d, ctx=HostContext(), cleaner=cleaner)
-            path = os.path.join(d, "out", "etc/vp/big.conf")
-            p.write(path)
-        else:
-            path = os.path.join(d, "big.txt")
-            with open(path, "w") as f:
-                f.write("\n".join(lines) + "\n")
-            cleaner.clean_file(path)
-        with open(path) as f:
-            stored = f.read().split("\n")
-        if stored and stored[-1] == "":
-            stored.pop()
-        if stored != lines:
-            k = next((i for i in range(min(len(stored), len(lines))) if stored[i] != lines[i]), min(len(stored), len(lines)))
-            raise Violation("%d lines that need no cleaning were stored as %d lines; first difference at line %d: %r "
-                            "(every stored line must derive from exactly one input line)"
-                            % (n, len(stored), k, stored[k][:80] if k < len(stored) else None), n=n, entry=case["entry"])
+        # the content object that is handed over - again and again when times > 1
+        content = list(lines)
+        p = DatasourceProvider(content, relative_path="etc/vp/big.conf", root=d, ctx=HostContext(),
+                               cleaner=None) if entry == "write" else None
+        for k in range(times):
+            if entry == "list":
+                out = fresh().clean_content(content)
+                if not isinstance(out, list):
+                    raise Violation("clean_content(list) did not return a list", got=repr(out)[:200], **details)
+                if out and not any(o != "" for o in out):
+                    raise Violation("a result without any non-blank line is returned instead of being dropped",
+                                    output_lines=len(out), **details)
+            else:
+                if entry == "write":
+                    path = os.path.join(d, "out%d" % k, "etc/vp/big.conf")
+                    p.cleaner = fresh()     # the same spec stored once more by a fresh cleaner
+                    try:
+                        p.write(path)
+                        raised = False
+                    except ContentException:
+                        raised = True
+                    if raised and os.path.exists(path):
+                        raise Violation("the provider raised its content error but a file exists at the destination",
+                                        **details)
+                else:
+                    path = os.path.join(d, "big%d.txt" % k)
+                    with open(path, "w") as f:
+                        f.write("\n".join(content) + "\n")
+                    fresh().clean_file(path)
+                if os.path.exists(path):
+                    with open(path) as f:
+                        text = f.read()
+                    if text.strip("\n") == "":
+                        raise Violation("a spec left with no non-blank line was stored (%s) instead of being dropped"
+                                        % ("ContentProvider.write" if entry == "write" else "clean_file"),
+                                        stored_chars=len(text), **details)
+                    out = text.split("\n")
+                    if out and out[-1] == "":
+                        out.pop()
+                    os.remove(path)
+                else:
+                    out = []
+            outs.append(out)
+            what = "cleaning %d of %d of the same content object" % (k + 1, times) if times > 1 else "cleaning"
+            if drop is None and out != lines:
+                i = next((i for i in range(min(len(out), len(lines))) if out[i] != lines[i]), min(len(out), len(lines)))
+                raise Violation("%d lines that need no cleaning were stored as %d lines; first difference at line %d: %r "
+                                "(every stored line must derive from exactly one input line)"
+                                % (n, len(out), i, out[i][:80] if i < len(out) else None), n=n, entry=entry)
+            if k and out != outs[0]:
+                i = next((i for i in range(min(len(out), len(outs[0]))) if out[i] != outs[0][i]),
+                         min(len(out), len(outs[0])))
+                raise Violation("the same content cleaned again by a fresh cleaner of the same configuration gives "
+                                "another output: %d lines the first time, %d lines at cleaning %d; first difference at "
+                                "output line %d: %r / %r" % (len(outs[0]), len(out), k + 1, i,
+                                                             outs[0][i][:80] if i < len(outs[0]) else None,
+                                                             out[i][:80] if i < len(out) else None), **details)
+            _big_derivation(lines, out, what, **details)
+            if drop == "all" and out:
+                raise Violation("every non-blank line had to be redacted, yet the spec was not dropped (%s)" % entry,
+                                output_lines=len(out), **details)
+        # checked last: the outputs above are what the statement talks about; a content object that is no longer
+        # what was handed in means the next reader / cleaning of the same spec works on another content
+        if entry != "file" and content != lines:
+            i = next((i for i in range(min(len(content), len(lines))) if content[i] != lines[i]),
+                     min(len(content), len(lines)))
+            raise Violation("cleaning is not a function of the content handed in: the caller's list of lines was "
+                            "altered by cleaning it %d time(s) (%d lines before, %d after; first difference at line %d: %r -> "
+                            "%r), so the next cleaning of the same spec sees another content"
+                            % (times, len(lines), len(content), i, lines[i][:80] if i < len(lines) else None,
+                               content[i][:80] if i < len(content) else None), **details)
     finally:
         shutil.rmtree(d, ignore_errors=True)
-    return {"nontrivial": True, "labels": ["entry=" + case["entry"], "lines>=16384" if n >= 16384 else "lines<16384"]}
+    thr = [t for t in BIG_BINARY + BIG_DECIMAL if abs(n - t) <= 1]
+    labels = ["entry=" + entry, "lines>=16384" if n >= 16384 else "lines<16384", "drop=%s" % drop,
+              "cleanings-of-the-same-object=%d" % times, "obfuscate=%s" % obf]
+    if drop:
+        labels.append("around-a-decimal-round-number" if any(t in BIG_DECIMAL for t in thr) else
+                      "around-a-power-of-two" if thr else "around-another-round-number")
+        labels.append("lines>=50000" if n >= 50000 else "lines<50000")
+        if outs[0] and len(outs[0]) < n:
+            labels.append("some-lines-dropped-some-kept")
+        if not outs[0]:
+            labels.append("collapsed")
+    return {"nontrivial": drop is None or len(outs[0]) < n, "labels": labels}
 
 
 @st.composite
@@ -1142,6 +1335,22 @@ def selftest():
         ["lookalike:pattern-in-one-piece-only:line-above-the-last",
          "lookalike:allowlist-key-in-one-piece-only:line-above-the-last"])
     assert _lookalike_labels({"patterns": {"mode": "plain", "items": ["k\x0cu"]}, "allowlist": None}, ["#1# link\x0cup"]) == set()
+    # big: the derivation oracle on fixed outputs (no code under test involved)
+    ls = _big_lines(6, "every3", True)
+    assert [BIG_DROP_WORD in l for l in ls] == [False, True, False, False, True, False] and "" not in ls
+    assert _big_lines(4, "all", True)[2] == "" and all(BIG_DROP_WORD in l for l in _big_lines(4, "all", False))
+    assert [BIG_DROP_WORD in l for l in _big_lines(3, "last", True)] == [False, False, True]
+    _big_derivation(ls, [ls[0], ls[2], ls[3], ls[5]], "selftest")
+    _big_derivation(ls, [], "selftest")
+    for bad in ([ls[0], ls[0]], [ls[2], ls[0]], [ls[0] + "x"], ["#9# filler text 2"], [ls[0] + ls[2]], [""]):
+        try:
+            _big_derivation(ls, bad, "selftest")
+        except Violation:
+            continue
+        raise AssertionError("derivation oracle accepted %r" % (bad,))
+    assert all(c.get("times", 1) >= 2 for c in big_cases("quick") if c.get("drop") and c["entry"] != "file")
+    assert set(c["n"] for c in big_cases("quick") if c.get("drop")) >= set(
+        n for t in BIG_DECIMAL + BIG_BINARY[:2] for n in (t - 1, t, t + 1))
     # the child protocol itself (no code under test involved)
     res = hashseed.run_batch("vp.props.c10:_echo", [{"x": 1}, {"x": u"\u00e9"}], [0, 5])
     assert res[0] == res[5] == [{"x": 1, "echo": True}, {"x": u"\u00e9", "echo": True}], res
